@@ -234,7 +234,7 @@ pub fn property() -> Property {
             Tier::Thorough => vec![Step::Pbt { kind: "live_list", cases: 3000, max_len: 160 }, Step::Pbt { kind: "dp_scanner", cases: 3000, max_len: 160 }],
         },
         hang_is_violation: false,
-        hang_limit_s: 300,
+        hang_limit_s: 900,
         probes: vec![],
     }
 }
